@@ -139,7 +139,7 @@ macro_rules! byron_total {
 // bound: ByronAddress::from_bytes, first byte and length constant per harness (82 x 6/12 bytes, 00 x 2), remaining bytes symbolic; unwind 14
 byron_total!(c09_q_byron_82_len6, 0x82u8, 6);
 byron_total!(c09_t_byron_82_len12, 0x82u8, 12);
-byron_total!(c09_t_byron_00_len2, 0x00u8, 2);
+byron_total!(c09_x_byron_00_len2, 0x00u8, 2);
 
 /// Undefined header types 9..=13 and the empty input are rejected without a panic.
 /// bound: header high nibble 9..=13 with low nibble 0 and 15 (constant per guarded call), lengths 1 and 58, plus the empty slice; unwind 7
